@@ -281,3 +281,16 @@ Theorem schedule_internal_wake_on_empty_transition_refuted : forall n workers, (
   stranded WakeOnEmptyToNonEmpty n workers = (n - 1)%nat.
 Proof. exact empty_transition_strands_general. Qed.
 Print Assumptions schedule_internal_wake_on_empty_transition_refuted.
+
+(* the per-thread reclaim slot: reclaimed by the next finish on the same thread or at thread exit; AFTER the thread-exit destruction
+   (process exit: the scheduler's static destructor drains queued tasks on the main thread after its TLS destructors) a plain-pointer
+   slot is still a valid empty slot: no use after free, every body once, every task but the very last freed once, the last one
+   stays reachable.  Instances (exit_shapes: 0-3 tasks before exit, 0-5 drained after, slot empty / occupied), not a general theorem. *)
+Theorem schedule_internal_exit_drain_instances : exit_shapes_ok SlotRawPointer = true.
+Proof. exact exit_raw_pointer_ok. Qed.
+Print Assumptions schedule_internal_exit_drain_instances.
+(* an owning object (thread_local unique_ptr) as the slot is dead after the TLS destructors: draining then uses a destroyed object *)
+Theorem schedule_internal_exit_owning_slot_refuted :
+  exit_history SlotOwningObject None [1%N] [2%N] = None /\ exit_shapes_ok SlotOwningObject = false.
+Proof. exact exit_owning_object_refuted. Qed.
+Print Assumptions schedule_internal_exit_owning_slot_refuted.
